@@ -117,6 +117,10 @@ var deaths = []death{
 	{"slid2-expired", slide(2, []int64{250, 280}, 302)},
 	{"slid3-expired", slide(3, []int64{280, 200, 270}, 301)},
 	{"slid4-expired", slide(4, []int64{100, 280, 280, 150}, 330)},
+	{"cleaner-ran-while-live-then-expired", func(g *gen, ck string) []string {
+		// the cleaner is no use of the session: it must not slide it
+		return []string{"adv 200", "clean", "adv 80", "clean", "adv 30"}
+	}},
 	{"logout", func(g *gen, ck string) []string { return []string{"logout 0"} }},
 	{"logout-after-use", func(g *gen, ck string) []string {
 		t, v := dynRoute(2, 2)
@@ -292,6 +296,70 @@ func (g *gen) deadKeys() {
 					g.out("dead-key", lines)
 				}
 			}
+		}
+	}
+}
+
+// overlappedImports: core/apiKeys is changed twice in a row while the key import started by the first
+// change is still in progress (it is parked right after it has read the option; every config change
+// event runs the import hook in its own goroutine). After both imports have finished, exactly the keys
+// of the second value may grant: a key that was removed, lowered or replaced by the second change must
+// not come back through a late install of the first import.
+func (g *gen) overlappedImports() {
+	ent := func(name string, r, w int) string {
+		return keyEntry(fmt.Sprintf("%s?read=%s&write=%s", name, permName[r], permName[w]), 0)
+	}
+	const kK, kL, kM, kN = "ovl-key-K-000000", "ovl-key-L-000000", "ovl-key-M-000000", "ovl-key-N-000000"
+	type scen struct {
+		name        string
+		start, a, b []string
+	}
+	K, L, M, N := ent(kK, 3, 3), ent(kL, 2, 2), ent(kM, 3, 2), ent(kN, 2, 3)
+	Klow := ent(kK, 1, 1)
+	Kuser := ent(kK, 2, 2)
+	scens := []scen{
+		{"removed", []string{K, L}, []string{K, L}, []string{L}},
+		{"all-removed", []string{K}, []string{K}, nil},
+		{"lowered", []string{K, L}, []string{K, L}, []string{Kuser, L}},
+		{"lowered-to-anyone", []string{K}, []string{K, M}, []string{Klow}},
+		{"replaced", []string{K}, []string{K, M}, []string{N}},
+		{"added-then-removed", nil, []string{K, M}, nil},
+		{"same", []string{K, L}, []string{K, L}, []string{K, L}},
+		{"raised", []string{Kuser}, []string{Kuser}, []string{K}},
+		{"reordered-duplicate", []string{K}, []string{Kuser, K}, []string{K, Kuser}},
+	}
+	rounds := g.r.Budget(1, 6)
+	for round := 0; round < rounds; round++ {
+		for _, sc := range scens {
+			lines := []string{"authset 1"}
+			if sc.start != nil || g.rng.Intn(2) == 0 {
+				lines = append(lines, strings.TrimSpace("keys "+strings.Join(sc.start, " ")))
+			}
+			lines = append(lines, strings.TrimSpace("overlap "+strings.Join(sc.a, " "))+" // "+strings.Join(sc.b, " "))
+			lines[len(lines)-1] = strings.TrimSpace(lines[len(lines)-1])
+			probe := func() {
+				for _, key := range []string{kK, kL, kM, kN} {
+					for _, p := range []presPlan{presPlans[0], presPlans[1]} {
+						for _, need := range []int{3, 2} {
+							if round > 0 && g.rng.Intn(2) == 0 {
+								continue
+							}
+							q := g.presReq(p, need)
+							q.authz = "Bearer " + key
+							if g.rng.Intn(4) == 0 {
+								q.authz = basicOf(key, g.rng.Intn(len(key)+1))
+							}
+							lines = append(lines, g.req(q))
+						}
+					}
+				}
+			}
+			probe()
+			// any later config change re-imports the configured value
+			lines = append(lines, g.pick([]string{"cfgchange", "dev 0", "cfgchange"}))
+			probe()
+			g.r.Count("overlapped-import:" + sc.name)
+			g.out("overlapped-import", lines)
 		}
 	}
 }
